@@ -287,6 +287,9 @@ class Impl:
             b = self.bus.Bus()
 
             class C(object):
+                def __init__(self):
+                    self.matchRules = set()     # BusProtocol.matchRules (ids recorded by dbus_AddMatch since D50)
+
                 def sendMessage(self, m):
                     pass
             b.clients[':1.1'] = C()
